@@ -16,6 +16,23 @@ CHECKS = {
                 text="Same exploration as C01; in the state reached by every history stats() and any_stats() (static and through the handle under test) must agree and satisfy the position / chunk-list / size identities, cross-checked against the base-allocator log, for zero-sized, stateful and over-aligned allocator values."),
 }
 
+CHECKS.update({
+    "C03": dict(engine="arena-mc", ref="§3 C03", technique="explicit-state exploration of the real scope/guard/checkpoint APIs with exact-restore and replay-needs-no-memory oracles",
+                text="Every well-nested history over 7 region kinds (scoped, scoped_aligned, guard drop, guard reset, checkpoint/reset_to, claim, aligned) x exits by return and by unwinding x workload operations (incl. chunk-spanning allocations, alloc_try_with(_mut) -> Err, reset, reset_to_start) up to depth 5 (quick) on 45 configurations; at every scope end allocated(), position and current chunk must equal the entry snapshot, and every closed scope body is re-executed in a fresh scope with the same concrete requests and must not reach the base allocator."),
+    "C05": dict(engine="arena-mc", ref="§3 C05", category="fault_enumeration", technique="explicit-state exploration of the real arena with exhaustive base-allocator fault-set enumeration, judged from the allocator log",
+                text="Every history over the chunk-affecting alphabet up to the depth bound followed by drop (or into_raw/from_raw + drop), x constructors (try_new, unallocated, with_size, with_capacity) and, for each history, every base-allocator fault set of bounded size; the instrumented base allocator's log must show every granted block released exactly once with a fitting layout by the granting allocator identity, canaries and poison intact, reset/reset_to_start/scope exits releasing exactly what the property says."),
+    "C07": dict(engine="arena-mc", ref="§3 C07 (arena part)", category="fault_enumeration", technique="explicit-state exploration of the real arena with exhaustive base-allocator fault-set enumeration; all state oracles stay on after the failure",
+                text="Arena part of C07: every history over the try_/allocator-interface alphabet (incl. requests whose size overflows) up to the depth bound and, for each, every base-allocator fault set of bounded size (call indices counted from construction, so failures while unallocated, while switching chunks and while claimed are covered); a refused request must surface as Err without panic, and the containment, content, statistics and release oracles must keep holding for the rest of the history and at drop."),
+    "C12": dict(engine="arena-mc", ref="§3 C12 (arena part)", technique="explicit-state exploration of every chunk-creating route of the real arena with a fits-in-the-new-chunk oracle",
+                text="Arena part of C12: every history over the chunk-creating alphabet (slow path of allocate / typed slices / prepare, reserve, first allocation of an unallocated arena, with_capacity / with_size constructors, alignments up to 4096) x exact and over-granting substrates; a request that reaches the base allocator must add exactly one chunk, be served from it, and the new chunk must be at least twice the previous one less 16 bytes."),
+    "C13": dict(engine="arena-mc", ref="§3 C13", technique="explicit-state exploration of the real arena through every handle kind with reclaim / no-reclaim oracles and a re-allocation probe",
+                text="Every history over an allocate/grow/shrink/shrink_slice/deallocate alphabet up to depth 4 (quick) through all 9 handle kinds; allocated() may only decrease by reclaiming the block that touches the bump position, never when deallocation / shrinking is disabled by a setting or wrapper, and after deallocating the most recent allocation the same request must return the same address (probe executed after the last operation); growing it upwards with room must stay in place."),
+    "C14": dict(engine="arena-mc", ref="§3 C14", technique="explicit-state exploration interleaving operations on the real claim guard and on the claimed original",
+                text="Every history interleaving guard operations (allocation, chunk growth, inner scopes, nested claims, exit by return or unwinding, claim on an unallocated arena) with 12 kinds of operations on the claimed original up to depth 4 (quick): memory requests on the original must fail in the documented way (Err / unwinding panic), dealloc/shrink must do nothing, stats must be all zero, nothing may reach the base allocator or move the guard's arena, and after the guard is gone the original continues exactly where the guard stopped."),
+    "C18": dict(engine="arena-mc", ref="§3 C18", technique="explicit-state exploration of nested aligned/scoped_aligned/scoped regions of the real arena with position-alignment and data-integrity oracles",
+                text="Every history nesting aligned::<N>, scoped_aligned::<N> and scoped for every (outer, inner) pair of supported minimum alignments up to depth 5 (quick) with allocations whose sizes are not multiples of N, chunk switches while lowered, deallocation and exits by return / unwinding; the position must be a multiple of N at entry and after every allocation, a multiple of the outer alignment after aligned, blocks made before / inside / after must stay disjoint and intact."),
+})
+
 NOT_YET = {}
 
 def main():
